@@ -63,6 +63,10 @@ CLAIMED = {
         technique="runtime monitoring: liveness oracle on the real server process (exit status, health read, panic site from stderr) after every hostile input, after background cycles and after a restart on the same database; client-error + no-trace oracle for invalid input",
         text="The real `resonate serve` binary (built from the working tree) runs on a database file with a 50 ms signal timeout. For every POST/PATCH route each body field is mutated (absent, null, empty, wrong JSON type, negative, 0, max/min int64, out-of-range numbers, 1 MB strings, non-JSON bodies); 60 hostile strings (JSON literals, receiver objects with missing parts, template syntax, URL fragments, separators, control characters) are placed where the server interprets them later (routing tags, registration receivers on promises that time out at once, schedule id templates / cron / promise tags with an every-second cron, path ids, query parameters, headers, cursors including ones signed with the hard-coded key around hostile requests); gRPC messages with nil sub-messages, unset oneofs, empty and negative fields. After every batch: background cycles, process and health probe, kill + restart on the same database, cycles, probe. A death is attributed by re-running each input of the batch alone on a fresh database (then restarted once more to tell poison pills). Inputs the API contract makes invalid must get 4xx / InvalidArgument and leave no row containing the input's unique marker.",
         note="Trusted: the harness's classification of which inputs are invalid by contract (only required/typed/ranged fields the front ends themselves validate), process liveness as the oracle. Dropped replies and 5xx answers are confirmed on a fresh server before they are reported; health probes are retried for 4 s before 'wedged' is reported. Only generated inputs are covered."),
+    "C20": dict(engine="proc", category="exploration", design="DESIGN.md §4 C20, §2.4",
+        technique="runtime monitoring: byte-for-byte round-trip ledger over the real server process, both protocols, the poll SSE transport and a restart",
+        text="Against the real `resonate serve` process: ids (slashes, ':', markup characters, '%', '+', spaces, control characters, non-ASCII in NFC and NFD, template syntax, up to 4 kB), parameter/value bytes (0-64 kB arbitrary), header and tag maps (empty keys/values, dotted and quoted keys, case variants), idempotency keys, timeouts over the int64 range (JSON number exactness at +-2^53+-1, int32 boundaries) are written through one protocol and read back through both: create reply, HTTP and gRPC reads, exact-id search, completion reply through the other protocol, the notification and resume messages received on a real SSE stream of the poll transport, the claim payload, schedules and the promise a firing schedule derives (id template output, tags, parameter), and again after the server is killed and restarted. Ids differing only in case, surrounding whitespace or normalisation form must not resolve to the object; derived ids (__resume:<root>:<leaf>, __notify:<promise>:<id>, claim hrefs, scheduled promise ids) must contain the client ids unaltered.",
+        note="Trusted: Go's HTTP/JSON/protobuf clients for encoding the requests (ids are percent-encoded per path segment; ids with empty or dot segments are not generated because HTTP cannot address them). Search is only checked for ids without pattern metacharacters. Waiting for messages/firings uses generous wall-clock waits whose expiry is counted (messages-not-seen-in-time) and never reported as a violation."),
 }
 
 PENDING_REASON = "check for this property is not built yet in this round (machinery under construction; see DESIGN.md §9 build order)"
